@@ -95,12 +95,18 @@ class TLCResult:
 
 
 _unescape_re = re.compile(r'\\(.)')
+_json_str = json.JSONDecoder(strict=False)
 
 
 def _tla_unquote(s):
     # TLC prints a TLA+ string value: "..." with \" and \\ escaped
     s = s.strip()
     if s.startswith('"') and s.endswith('"'):
+        # the escapes TLC uses (\" \\ \n \t) are JSON string escapes: let the C decoder do the work
+        try:
+            return _json_str.decode(s)
+        except Exception:
+            pass
         s = s[1:-1]
     return _unescape_re.sub(lambda m: {'n': '\n', 't': '\t'}.get(m.group(1), m.group(1)), s)
 
@@ -264,7 +270,9 @@ def run_bin(ctx, binpath, args, timeout=600, stdin=None, env=None):
 def run_harness_json(ctx, pkg, args, timeout=600, race=False, env=None):
     """Run a harness command that prints one JSON report on stdout."""
     b = go_build(ctx, pkg, race=race)
+    t0 = time.time()
     rc, out, err = run_bin(ctx, b, args, timeout=timeout, env=env)
+    ctx.extra.setdefault("harness_runs", []).append({"cmd": pkg + " " + (args[0] if args else ""), "wall_s": round(time.time() - t0, 1)})
     if rc == 124:
         raise MachineryError("harness %s timed out after %ss" % (pkg, timeout))
     try:
